@@ -6,6 +6,7 @@ import (
 	"os"
 	"runtime/debug"
 	"strconv"
+	"strings"
 	"testing"
 	"testing/synctest"
 )
@@ -19,9 +20,9 @@ func TestSim(t *testing.T) {
 		t.Skip("VERIF_WORLD not set")
 	}
 	debug.SetGCPercent(-1)
-	seed, _ := strconv.ParseUint(os.Getenv("VERIF_SEED"), 10, 64)
+	seed, _ := strconv.ParseUint(strings.TrimLeft(os.Getenv("VERIF_SEED"), "0"), 10, 64)
 	var replay []int32
-	if p := os.Getenv("VERIF_TAPE"); p != "" {
+	if p := strings.TrimSpace(os.Getenv("VERIF_TAPE")); p != "" {
 		b, err := os.ReadFile(p)
 		if err != nil {
 			fmt.Println("RESULT", `{"outcome":"error","msg":"cannot read tape"}`)
